@@ -770,6 +770,10 @@ non-input initializers have type+shape (fill fixpoint)).  It is WEAKER than the 
 (restrictions (1) and (2) below are gone: the unfolding compares what the format carries); the implication
 old => new and the theorem's statement itself (`iso_tm_statement_b`) are evaluated by Coq on every generated case.
 C03_ser_deser_ser: under serializable_tm and an idempotent leaf normalisation, ser (deser (ser h)) = ser h.
+IR < 10 experimental function value-info format: modelled since the deepening round (C03/ModelOld.v, tables X/Y from
+exp_tables): cases with ir_version < 10 and functions are no longer skipped: agree_ser_x / agree_after_ser_x /
+agree_roundtrip_x compare the code with ser_model_old / deser_model_old; theorem C03_ser_readonly_old (C03_iso itself is
+the IR >= 10 statement; in the old format the fixpoint is refuted: C17_ser_fixpoint_old_refuted).
 Hence ck.level = "proof".  (The canonical-observation statement `iso_statement_b` of Iso.v is still evaluated per
 case as an independent formulation of the same property.)
 Restrictions of `serializable` added by this check after Coq evaluated a state it accepted whose round trip is not
@@ -3107,14 +3111,17 @@ def run_case(recipe: dict, want_term: bool = True, repair=None) -> dict:
             pc = ProtoConv(it)
             q = "None" if q1 is None else f"(Some {pc.model(q1)})"
             o2 = "None" if m2 is None else f"(Some {ir_obs(m2, it)})"
-            res["unmodelled"] += list(pc.unmodelled)
+            res["unmodelled"] += [u for u in pc.unmodelled if u not in res["unmodelled"]]
             if it.norm_failed:
                 res["unmodelled"].append("payload normalisation failed")
             if it.nonstr:
                 res["unmodelled"].append("names that are not str")
             flag = (not conds) and not inv
             res["flag"] = flag
-            res["term"] = (f"({it.norm_table()}, {heap}, {mdl}, {o0}, {q}, {o1}, {o2}, {common.cbool(flag)})")
+            oldfmt = model.ir_version < 10 and len(model.functions) > 0   # IR<10 experimental function value info
+            xs, ys = exp_tables(it, protos=[q1], models=[model, m2]) if oldfmt else ("[]", "[]")
+            res["term"] = (f"({common.cbool(oldfmt)}, {xs}, {ys}, {it.norm_table()}, {heap}, {mdl}, {o0}, {q}, {o1}, {o2}, "
+                           f"{common.cbool(flag)})")
         except Unmodelled as e:
             res["unmodelled"].append(str(e))
     return res
@@ -3122,14 +3129,15 @@ def run_case(recipe: dict, want_term: bool = True, repair=None) -> dict:
 
 PREDICATES = [
     ("agree_heap", "agree_heap h m o0"),
-    ("agree_ser", "agree_ser np h m q"),
-    ("agree_after_ser", "agree_after_ser np h m o1"),
-    ("agree_roundtrip", "agree_roundtrip np h m o2"),
+    # `old` selects the IR<10 experimental function value-info format (C03/ModelOld.v; tables X, Y)
+    ("agree_ser", "agree_ser_x old Y np h m q"),
+    ("agree_after_ser", "agree_after_ser_x old Y np h m o1"),
+    ("agree_roundtrip", "agree_roundtrip_x old X Y np h m o2"),
     ("iso_statement", "iso_statement_b np h m"),
     # the statement of theorem C03_iso (tree form: Tree.v / TreeF.v) on this state, and old hypothesis => new one
     ("iso_tree_statement", "iso_tm_statement_b np h m"),
     ("serializable_implies_tree", "implb (inv_b h && serializable_b h m) (serializable_tm np h m)"),
-    ("serializable_flag", "Bool.eqb (inv_b h && serializable_b h m) f"),
+    ("serializable_flag", "old || Bool.eqb (inv_b h && serializable_b h m) f"),
 ]
 
 
@@ -3146,10 +3154,10 @@ def correspondence(ck, terms: list, tag: str) -> dict:
     files, chunk = [], max(40, min(110, (len(terms) + 3) // 4))
     for i in range(0, len(terms), chunk):
         text = CASE_HEADER_C03 + (
-            "Definition cases : list (list (N * N) * heap * model * obs * option mproto * obs * option obs * bool) :=\n  "
+            "Definition cases : list (bool * xparse * xcomp * list (N * N) * heap * model * obs * option mproto * obs * option obs * bool) :=\n  "
             + "[" + ";\n  ".join(terms[i:i + chunk]) + "].\n")
         for _, body in PREDICATES:
-            text += f"Eval vm_compute in (failing (fun c => let '(np, h, m, o0, q, o1, o2, f) := c in {body}) cases).\n"
+            text += f"Eval vm_compute in (failing (fun c => let '(old, X, Y, np, h, m, o0, q, o1, o2, f) := c in {body}) cases).\n"
         files.append((f"{tag}_{i // chunk}", text))
     outs = []
     for i in range(0, len(files), 4):                # at most 4 coqc processes at a time
